@@ -22,7 +22,8 @@ CONSTANT Dev
 
 Levels == 1..3
 Spellings == {"cwd", "dir_abs", "dir_dot", "dir_dotdot", "dir_child", "ergo_abs", "ergo_rel"}
-FileSets == {[plans |-> p, events |-> e, lock |-> l] : p \in BOOLEAN, e \in BOOLEAN, l \in BOOLEAN}
+Presence == {"no", "empty", "full"}      \* a log file: absent, present but empty, holding items
+FileSets == {[plans |-> p, events |-> e, lock |-> l] : p \in Presence, e \in Presence, l \in BOOLEAN}
 
 Layouts ==
   {[stores |-> s, start |-> st, spell |-> sp, files |-> f] :
@@ -51,7 +52,8 @@ ResolveAsIs(c) ==
          [] OTHER -> Resolve(c)
 
 \* the log file inside the resolved store (c.files describes that store)
-LogFile(c) == IF c.files.plans THEN "plans" ELSE IF c.files.events THEN "events" ELSE "plans"
+\* (presence decides, not content: an empty plans.jsonl still wins)
+LogFile(c) == IF c.files.plans # "no" THEN "plans" ELSE IF c.files.events # "no" THEN "events" ELSE "plans"
 
 RealLayouts == {c \in Layouts : Exists(c)}
 
